@@ -10,6 +10,9 @@ package motion
 
 import (
 	"fmt"
+	"reflect"
+	"strconv"
+	"strings"
 	"sync/atomic"
 	"testing"
 
@@ -179,7 +182,26 @@ func (p *ringPair) key() string {
 	if n > p.ref.N {
 		n = p.ref.N
 	}
-	return fmt.Sprintf("N%d/i%d,f%v,o%d/n%d,a%d", p.ref.N, p.fl.currentIndex, p.fl.bufferFull, p.fl.oldest, n, age)
+	return fmt.Sprintf("N%d/%s/n%d,a%d", p.ref.N, implState(p.fl), n, age)
+}
+
+// implState prints every scalar field of the ring (indices, flags, counters - whatever the
+// implementation keeps besides the frames themselves) without naming them here.
+func implState(fl *FrameLoop) string {
+	v := reflect.ValueOf(fl).Elem()
+	var sb strings.Builder
+	for i := 0; i < v.NumField(); i++ {
+		f := v.Field(i)
+		switch f.Kind() {
+		case reflect.Int, reflect.Int8, reflect.Int16, reflect.Int32, reflect.Int64:
+			fmt.Fprintf(&sb, "%s=%d,", v.Type().Field(i).Name, f.Int())
+		case reflect.Uint, reflect.Uint8, reflect.Uint16, reflect.Uint32, reflect.Uint64:
+			fmt.Fprintf(&sb, "%s=%d,", v.Type().Field(i).Name, f.Uint())
+		case reflect.Bool:
+			fmt.Fprintf(&sb, "%s=%v,", v.Type().Field(i).Name, f.Bool())
+		}
+	}
+	return sb.String()
 }
 
 func opsString(ops []byte) string {
@@ -197,6 +219,7 @@ func TestVerif_C19(t *testing.T) {
 
 	// Part 1: exhaustive reachability of the product state, capacities 1..8.
 	maxCap := int(c.N(8, 12))
+	open := false
 	for N := 1; N <= maxCap; N++ {
 		type node struct{ ops []byte }
 		seen := map[string]bool{}
@@ -229,21 +252,29 @@ func TestVerif_C19(t *testing.T) {
 						}
 						c.Nontrivial(vNewHash().Str(from).Int(op).Sum())
 						c.Seen("product_states", k)
-						c.Seen("impl_states", fmt.Sprintf("N%d/i%d,f%v,o%d", N, p.fl.currentIndex, p.fl.bufferFull, p.fl.oldest))
+						c.Seen("impl_states", fmt.Sprintf("N%d/%s", N, implState(p.fl)))
 						c.Count("bfs_transitions", 1)
 						c.Sample("bfs", func() interface{} {
 							return map[string]interface{}{"capacity": N, "ops": opsString(ops), "history_ids": ids(p.fl.GetHistory()), "oldest": p.fl.Oldest().Status.FrameCount}
 						})
 					})
 				}
-				if !seen[k] {
+				if !seen[k] && !open {
 					seen[k] = true
 					queue = append(queue, node{ops})
 				}
 			}
+			// an implementation that keeps an ever-growing counter has no finite state space: the
+			// walk is given up (and the claim of completeness with it), the other parts still run
+			if len(seen) > 4000 && !open {
+				open = true
+				c.Note("bfs_state_space_did_not_close", fmt.Sprintf("capacity %d: more than 4000 product states", N))
+			}
 		}
 	}
-	c.SetExhaustive(true)
+	if !open {
+		c.SetExhaustive(true)
+	}
 
 	// Part 1b: observation is not free of side effects in every implementation (GetHistory
 	// reuses an internal slice), so the monitor must not only look after every operation:
@@ -300,7 +331,7 @@ func TestVerif_C19(t *testing.T) {
 				for _, o := range ops {
 					p.apply(int(o))
 				}
-				if k := p.key(); !seen[k] {
+				if k := p.key(); !seen[k] && len(seen) <= 4000 {
 					seen[k] = true
 					queue = append(queue, ops)
 				}
@@ -506,5 +537,37 @@ func TestVerif_C19(t *testing.T) {
 			c.Count("concurrent_recent_distinct_frames", int64(distinct))
 			c.Nontrivial(vNewHash().U64(uint64(myIdx)).Int(N).Sum())
 		})
+	}
+
+	// Part: a ring that has lived through more than 2^31 moves (over a year of frames on one
+	// connection) on the 32-bit production word size: it still returns its full history. Only
+	// in the 32-bit build (about a minute there; any int-sized bookkeeping has wrapped by then).
+	if strconv.IntSize == 32 {
+		myIdx := idx
+		idx++
+		if c.Mine(myIdx) {
+			c.Case(myIdx, func() interface{} { return "capacity 3, 2^31+7 moves, then four stamped frames" }, func() {
+				fl := NewFrameLoop(3, vCam{2, 2, 1})
+				for i := uint64(0); i < 1<<31+7; i++ {
+					fl.Move()
+				}
+				want := []int{}
+				for id := 101; id <= 104; id++ {
+					fl.Current().Status.FrameCount = id
+					want = append(want, id)
+					if id < 104 {
+						fl.Move()
+					}
+				}
+				want = want[len(want)-3:]
+				got := ids(fl.GetHistory())
+				if fmt.Sprint(got) != fmt.Sprint(want) {
+					c.Violation("ring-history", "capacity 3 after 2^31 moves (32-bit)", fmt.Sprintf("GetHistory ids %v, expected the last three stamped frames %v", got, want))
+					return
+				}
+				c.Count("rings_older_than_2^31_moves", 1)
+				c.Nontrivial(vNewHash().U64(uint64(myIdx)).Sum())
+			})
+		}
 	}
 }
